@@ -338,7 +338,7 @@ def demoHiddenCycle : Wf :=
           .expr (ref "b" ["outputs", "success", "s"]),
           .expr (plus (ref "b" ["outputs", "success", "s"]) (ref "c" ["outputs", "success", "s"]))])])] } else s) }
 
-example : verdictOf (prepare po demoMulti) = "accepted:88:117" := by decide +kernel
+example : verdictOf (prepare po demoMulti) = "accepted:88:119" := by decide +kernel
 example : verdictOf (prepare po demoHiddenCycle) = "rejected:cycle" := by decide +kernel
 
 /-- `c` is connected to `b` although its other input key (and the earlier references of the same expression) had
